@@ -21,6 +21,7 @@ type Decision struct {
 	V    uint64 // for value decisions: the candidate value compared against
 	HasV bool
 	F    bool // forced: the other direction was infeasible when first explored
+	Sub  [][]Decision // summary: the feasible internal trails of a summarised callee
 }
 
 type Outcome int
@@ -47,6 +48,10 @@ type pathAbort struct {
 
 type unsupportedErr struct{ msg string }
 
+// infeasibleInner ends an internal path of a summarised callee that turned
+// out to be infeasible.
+type infeasibleInner struct{}
+
 func unsupported(msg string) unsupportedErr { return unsupportedErr{msg} }
 
 // Input is a named nondeterministic input of the harness.
@@ -72,10 +77,19 @@ type knownPred struct {
 }
 
 // pathState is the per-path symbolic state of one interpreter.
+// decCtx is a decision context: the global one of the path, or a nested one
+// while a pure callee is being summarised.
+type decCtx struct {
+	prefix []Decision
+	pos    int
+	trail  []Decision
+	push   func([]Decision)
+	forks  int
+}
+
 type pathState struct {
-	prefix  []Decision
-	pos     int
-	trail   []Decision
+	dc      *decCtx
+	top     *decCtx
 	pc      []*smt.Term
 	pcSet   map[int]bool
 	inputs  []Input
@@ -83,7 +97,8 @@ type pathState struct {
 	known   []knownPred
 	reached map[string]bool
 	steps   int
-	forks   int
+	summaries, summaryPaths int
+	lazy    []*smt.Term
 	hashApps []hashApp
 	fresh   int
 	notes   []string
@@ -98,7 +113,8 @@ type hashApp struct {
 func (i *interpreter) resetPath(prefix []Decision) {
 	i.cx = smt.NewCtx()
 	i.solver.Reset(i.cx)
-	i.ps = &pathState{prefix: prefix, pcSet: map[int]bool{}, inputIx: map[string]int{}, reached: map[string]bool{}}
+	dc := &decCtx{prefix: prefix, push: i.sched.push}
+	i.ps = &pathState{dc: dc, top: dc, pcSet: map[int]bool{}, inputIx: map[string]int{}, reached: map[string]bool{}}
 }
 
 func (i *interpreter) assume(t *smt.Term) {
@@ -110,7 +126,27 @@ func (i *interpreter) assume(t *smt.Term) {
 	i.solver.Assert(t)
 }
 
-func (i *interpreter) replaying() bool { return i.ps.pos < len(i.ps.prefix) }
+// assumeLazy records t in the path condition without sending it to the
+// solver yet (used inside summaries; flushed on demand).
+func (i *interpreter) assumeLazy(t *smt.Term) {
+	if t.IsTrue() || i.ps.pcSet[t.ID] {
+		return
+	}
+	i.ps.pcSet[t.ID] = true
+	i.ps.pc = append(i.ps.pc, t)
+	i.ps.lazy = append(i.ps.lazy, t)
+}
+
+// flushLazy sends the lazily recorded conditions of the current summary path
+// to the solver (needed before any solver query inside a summary).
+func (i *interpreter) flushLazy() {
+	for _, t := range i.ps.lazy {
+		i.solver.Assert(t)
+	}
+	i.ps.lazy = i.ps.lazy[:0]
+}
+
+func (i *interpreter) replaying() bool { return i.ps.dc.pos < len(i.ps.dc.prefix) }
 
 // decide resolves a symbolic condition to a concrete direction, forking when
 // both directions are feasible.
@@ -122,6 +158,7 @@ func (i *interpreter) decide(c *smt.Term) bool {
 		return false
 	}
 	ps := i.ps
+	dc := ps.dc
 	if ps.pcSet[c.ID] {
 		return true
 	}
@@ -130,22 +167,39 @@ func (i *interpreter) decide(c *smt.Term) bool {
 		return false
 	}
 	if i.replaying() {
-		d := ps.prefix[ps.pos]
-		ps.pos++
-		ps.trail = append(ps.trail, d)
+		d := dc.prefix[dc.pos]
+		dc.pos++
+		dc.trail = append(dc.trail, d)
+		add := i.assume
+		if i.inSummary > 0 && i.sh.LazySummary {
+			add = i.assumeLazy
+		}
 		if d.B {
-			i.assume(c)
+			add(c)
 		} else {
-			i.assume(nc)
+			add(nc)
 		}
 		return d.B
+	}
+	if i.inSummary > 0 && i.sh.LazySummary {
+		// lazy feasibility inside a summarised callee: both directions are
+		// explored without asking the solver; an infeasible internal path only
+		// contributes a dead branch to the merged result (panics on such paths
+		// are checked for feasibility when they occur)
+		alt := make([]Decision, len(dc.trail)+1)
+		copy(alt, dc.trail)
+		alt[len(dc.trail)] = Decision{B: false}
+		dc.push(alt)
+		dc.trail = append(dc.trail, Decision{B: true})
+		i.assumeLazy(c)
+		return true
 	}
 	rt := i.solver.CheckWith(c)
 	if rt == smt.Unknown {
 		panic(pathAbort{OutUnknown, "solver unknown on branch condition: " + i.solverErr()})
 	}
 	if rt == smt.Unsat {
-		ps.trail = append(ps.trail, Decision{B: false, F: true})
+		dc.trail = append(dc.trail, Decision{B: false, F: true})
 		i.assume(nc)
 		return false
 	}
@@ -154,7 +208,7 @@ func (i *interpreter) decide(c *smt.Term) bool {
 		panic(pathAbort{OutUnknown, "solver unknown on branch condition: " + i.solverErr()})
 	}
 	if rf == smt.Unsat {
-		ps.trail = append(ps.trail, Decision{B: true, F: true})
+		dc.trail = append(dc.trail, Decision{B: true, F: true})
 		i.assume(c)
 		return true
 	}
@@ -162,12 +216,12 @@ func (i *interpreter) decide(c *smt.Term) bool {
 	if debugFork {
 		i.noteFork(c)
 	}
-	alt := make([]Decision, len(ps.trail)+1)
-	copy(alt, ps.trail)
-	alt[len(ps.trail)] = Decision{B: false}
-	i.sched.push(alt)
-	ps.trail = append(ps.trail, Decision{B: true})
-	ps.forks++
+	alt := make([]Decision, len(dc.trail)+1)
+	copy(alt, dc.trail)
+	alt[len(dc.trail)] = Decision{B: false}
+	dc.push(alt)
+	dc.trail = append(dc.trail, Decision{B: true})
+	dc.forks++
 	i.assume(c)
 	return true
 }
@@ -189,17 +243,18 @@ func (i *interpreter) concretize(t *smt.Term) uint64 {
 		return t.Uint64()
 	}
 	ps := i.ps
+	dc := ps.dc
 	for n := 0; ; n++ {
 		if n > 4096 {
 			panic(pathAbort{OutBound, "concretisation of a symbolic value exceeded 4096 alternatives"})
 		}
 		if i.replaying() {
-			d := ps.prefix[ps.pos]
+			d := dc.prefix[dc.pos]
 			if !d.HasV {
-				panic(fmt.Sprintf("replay mismatch: expected value decision at %d", ps.pos))
+				panic(fmt.Sprintf("replay mismatch: expected value decision at %d", dc.pos))
 			}
-			ps.pos++
-			ps.trail = append(ps.trail, d)
+			dc.pos++
+			dc.trail = append(dc.trail, d)
 			eq := i.cx.Eq(t, i.cx.BV(d.V, t.W))
 			if d.B {
 				i.assume(eq)
@@ -208,7 +263,11 @@ func (i *interpreter) concretize(t *smt.Term) uint64 {
 			i.assume(i.cx.Not(eq))
 			continue
 		}
+		i.flushLazy()
 		res, vals := i.solver.ModelWith(nil, []*smt.Term{t})
+		if res != smt.Sat && i.inSummary > 0 {
+			panic(infeasibleInner{})
+		}
 		if res != smt.Sat {
 			panic(pathAbort{OutUnknown, "solver could not produce a model while concretising: " + i.solverErr()})
 		}
@@ -220,13 +279,13 @@ func (i *interpreter) concretize(t *smt.Term) uint64 {
 			panic(pathAbort{OutUnknown, "solver unknown while concretising"})
 		}
 		if ro == smt.Sat {
-			alt := make([]Decision, len(ps.trail)+1)
-			copy(alt, ps.trail)
-			alt[len(ps.trail)] = Decision{B: false, V: v, HasV: true}
-			i.sched.push(alt)
-			ps.forks++
+			alt := make([]Decision, len(dc.trail)+1)
+			copy(alt, dc.trail)
+			alt[len(dc.trail)] = Decision{B: false, V: v, HasV: true}
+			dc.push(alt)
+			dc.forks++
 		}
-		ps.trail = append(ps.trail, Decision{B: true, V: v, HasV: true})
+		dc.trail = append(dc.trail, Decision{B: true, V: v, HasV: true})
 		i.assume(eq)
 		return v
 	}
@@ -256,6 +315,9 @@ func (i *interpreter) condBool(x value) bool {
 
 func (i *interpreter) newInput(name, kind string, w int) *smt.Term {
 	ps := i.ps
+	if i.inSummary > 0 {
+		panic(unsupported("nondeterministic input " + name + " created inside a summarised function (create it before the call)"))
+	}
 	if ix, ok := ps.inputIx[name]; ok {
 		// same name twice on a path: disambiguate
 		ps.fresh++
@@ -335,7 +397,7 @@ func (i *interpreter) checkAssert(c *smt.Term, msg string, isPanic bool) {
 		for k, in := range ps.inputs {
 			m[in.Name] = vals[k].String()
 		}
-		i.sched.report(Finding{Harness: i.harness, Msg: msg, Model: m, Trail: trailString(ps.trail), Panic: isPanic})
+		i.sched.report(Finding{Harness: i.harness, Msg: msg, Model: m, Trail: trailString(ps.top.trail), Panic: isPanic})
 		panic(pathAbort{OutViolation, msg})
 	}
 	// 2. inside each known class
@@ -351,7 +413,7 @@ func (i *interpreter) checkAssert(c *smt.Term, msg string, isPanic bool) {
 			for kk, in := range ps.inputs {
 				m[in.Name] = vals[kk].String()
 			}
-			i.sched.report(Finding{Harness: i.harness, Msg: msg, Class: k.class, Model: m, Trail: trailString(ps.trail), Panic: isPanic})
+			i.sched.report(Finding{Harness: i.harness, Msg: msg, Class: k.class, Model: m, Trail: trailString(ps.top.trail), Panic: isPanic})
 		}
 	}
 	if isPanic {
@@ -376,6 +438,10 @@ func (i *interpreter) checkAssert(c *smt.Term, msg string, isPanic bool) {
 func trailString(tr []Decision) string {
 	var sb strings.Builder
 	for _, d := range tr {
+		if d.Sub != nil {
+			fmt.Fprintf(&sb, "{%d}", len(d.Sub))
+			continue
+		}
 		if d.HasV {
 			fmt.Fprintf(&sb, "[%d:%v]", d.V, d.B)
 		} else if d.B {
